@@ -46,17 +46,26 @@ Fixpoint data_eqb (a b : data) {struct a} : bool :=
 Record pcase := {
   pc_change : change;
   pc_data : data;                 (* implementation: ChangeToData()(change) after pickle dumps/loads *)
-  pc_back : option change         (* implementation: DataToChange(project)(data), abstracted *)
+  pc_back : option change;        (* implementation: DataToChange(project)(data), abstracted *)
+  pc_ignored : list text;         (* implementation: the changed paths p with project.is_ignored(p) *)
+  pc_interesting : bool           (* implementation: History._is_change_interesting(change) *)
 }.
 
 Definition opt_change_eqb (a b : option change) : bool :=
   match a, b with Some x, Some y => change_eqb x y | None, None => true | _, _ => false end.
 
-(* 0 = agrees with the model variant; 1 = to_data differs; 2 = of_data differs *)
+(* 0 = agrees with the model variant; 1 = to_data differs; 2 = of_data differs; 3 = the saved data has
+   not one leaf entry per primitive change (saved_data_keeps_every_leaf speaks about to_data, this is
+   the same count on the implementation's data); 4 = History._is_change_interesting differs *)
 Definition run_pcase (keep : bool) (c : pcase) : N :=
   if negb (data_eqb (to_data keep (pc_change c)) (pc_data c)) then 1%N
   else if negb (opt_change_eqb (of_data keep (pc_data c)) (pc_back c)) then 2%N
+  else if negb (Nat.eqb (length (data_leaves (pc_data c))) (length (leaves (pc_change c)))) then 3%N
+  else if negb (Bool.eqb (interesting (ign_of (pc_ignored c)) (pc_change c)) (pc_interesting c)) then 4%N
   else 0%N.
+(* cases inside the domain of recorded_change_reloads_whole that carry a child on an ignored resource *)
+Definition count_mixed (cs : list pcase) : N :=
+  N.of_nat (length (filter (fun c => mixed (ign_of (pc_ignored c)) (pc_change c)) cs)).
 
 Fixpoint pmism_from (keep : bool) (i : N) (cs : list pcase) : list (N * N) :=
   match cs with
@@ -92,6 +101,31 @@ Fixpoint hmism_from (keep : bool) (i : N) (cs : list hcase) : list (N * N) :=
       if N.eqb code 0 then hmism_from keep (N.succ i) r else (i, code) :: hmism_from keep (N.succ i) r
   end.
 Definition hmismatches (keep : bool) (cs : list hcase) : list (N * N) := hmism_from keep 0 cs.
+
+(* one History.do step of a real session: lists before, the change, lists after *)
+Record dcase := {
+  dc_limit : nat;
+  dc_ignored : list text;
+  dc_undo : list change;
+  dc_redo : list change;
+  dc_change : change;
+  dc_undo_after : list change;
+  dc_redo_after : list change
+}.
+Definition run_dcase (c : dcase) : N :=
+  let h := hist_do (ign_of (dc_ignored c)) (dc_limit c) {| undo_list := dc_undo c; redo_list := dc_redo c |} (dc_change c) in
+  if list_change_eqb (undo_list h) (dc_undo_after c) && list_change_eqb (redo_list h) (dc_redo_after c)
+  then 0%N else 1%N.
+Fixpoint dmism_from (i : N) (cs : list dcase) : list (N * N) :=
+  match cs with
+  | [] => []
+  | c :: r =>
+      let code := run_dcase c in
+      if N.eqb code 0 then dmism_from (N.succ i) r else (i, code) :: dmism_from (N.succ i) r
+  end.
+Definition dmismatches (cs : list dcase) : list (N * N) := dmism_from 0 cs.
+Definition count_mixed_do (cs : list dcase) : N :=
+  N.of_nat (length (filter (fun c => mixed (ign_of (dc_ignored c)) (dc_change c)) cs)).
 
 (* object db: the live {path: {scope: (call_info, per_name)}} before close, and what the save wrote
    (read back from the JSON side file, which holds every ScopeInfo's __getstate__) *)
@@ -150,3 +184,8 @@ Fixpoint omism_from (i : N) (cs : list ocase) : list (N * N) :=
       if N.eqb code 0 then omism_from (N.succ i) r else (i, code) :: omism_from (N.succ i) r
   end.
 Definition omismatches (cs : list ocase) : list (N * N) := omism_from 0 cs.
+(* scopes without any fact among the compared object dbs (domain of scopeinfo_empty_state) *)
+Definition is_empty_scope (v : pyval * pyval) : bool :=
+  match v with (PDict [], PDict []) => true | _ => false end.
+Definition count_empty_scopes (cs : list ocase) : N :=
+  N.of_nat (length (flat_map (fun c => flat_map (fun ps => filter (fun kv => is_empty_scope (snd kv)) (snd ps)) (oc_db c)) cs)).
